@@ -310,6 +310,7 @@ def fit_case_2d(draw, max_models=8, max_filters=6, max_sources=5, formats=('v1',
             'theta': draw(st.lists(st.floats(0.5, 10., allow_nan=False), min_size=nf, max_size=nf)),
             # convolved/<filter>.fits and parameters.fits may be gzip-compressed (documented layout)
             'compress': draw(st.sampled_from([None, None, None, None, 'convolved', 'parameters', 'both'])),
+            'conf_style': draw(st.sampled_from([0, 0, 0] + list(range(pkgio.N_CONF_STYLES)))),
             # 'v2mixed': a cube package whose filters are given partly by name (convolved files) and partly as wavelengths
             'by_name': [draw(st.booleans()) for _ in range(nf)],
             # the unit the cube / the convolved files are stored in
@@ -336,7 +337,7 @@ def build_package_2d(model_dir, case):
     filters = case['filters']
     fmt = case['format']
     comp = case.get('compress')
-    pkgio.write_conf(model_dir, False, 0.02, version=None if fmt == 'v1' else 2)
+    pkgio.write_conf(model_dir, False, 0.02, version=None if fmt == 'v1' else 2, style=case.get('conf_style', 0))
     pkgio.write_parameters(model_dir, names, {'par1': [float(i) for i in range(len(names))]}, gz=comp in ('parameters', 'both'),
                            width=max([30] + [len(x) for x in names]))
     flux = [[10. ** logf[m][j] for j in range(len(filters))] for m in range(len(names))]
@@ -536,6 +537,7 @@ def fit_case_3d(draw, max_models=6, max_filters=5, max_sources=4, formats=('v1',
             'law_units': draw(st.sampled_from([['um', 'cm2/g'], ['um', 'cm2/g'], ['nm', 'm2/kg']])),
             'ap_unit': draw(st.sampled_from(['AU', 'AU', 'pc', 'cm'])),
             'compress': draw(st.sampled_from([None, None, None, None, 'convolved', 'parameters', 'both'])),
+            'conf_style': draw(st.sampled_from([0, 0, 0] + list(range(pkgio.N_CONF_STYLES)))),
             # 'v2mixed': a cube package whose filters are given partly by name (convolved files) and partly as wavelengths
             'by_name': [draw(st.booleans()) for _ in range(nf)],
             # the unit the cube / the convolved files are stored in
@@ -569,7 +571,8 @@ def build_package_3d(model_dir, case):
     elif storage == 'shuffled':
         aidx = list(case['ap_shuffle'])
     comp = case.get('compress')
-    pkgio.write_conf(model_dir, True, case['setup']['step'], version=None if fmt == 'v1' else 2)
+    pkgio.write_conf(model_dir, True, case['setup']['step'], version=None if fmt == 'v1' else 2,
+                     style=case.get('conf_style', 0))
     pkgio.write_parameters(model_dir, names, {'par1': [float(i) for i in range(len(names))]}, gz=comp in ('parameters', 'both'),
                            width=max([30] + [len(x) for x in names]))
     cunit, vunit = case.get('conv_unit', 'mJy'), case.get('cube_unit', 'mJy')
